@@ -49,10 +49,13 @@ type ocCase struct {
 	// buffer, while another goroutine (the transport's writer finishing the batch before, or the next poll) hands
 	// those packets over; then it goes on
 	CloseHeld bool
+	// PMD: the server is configured with perMessageDeflate (threshold 0 or 1024): the websocket writer takes its
+	// compression branch
+	PMD int // 0: not configured; otherwise threshold+1
 }
 
 func (c ocCase) String() string {
-	return fmt.Sprintf("{%+v close=%s target=%d midUpgrade=%v finishUpgrade=%v closeIn=%q closeHeld=%v}", c.Sess, c.Close, c.Target, c.MidUpgrade, c.FinishUpgrade, c.CloseIn, c.CloseHeld)
+	return fmt.Sprintf("{%+v close=%s target=%d midUpgrade=%v finishUpgrade=%v closeIn=%q closeHeld=%v perMessageDeflate=%d}", c.Sess, c.Close, c.Target, c.MidUpgrade, c.FinishUpgrade, c.CloseIn, c.CloseHeld, c.PMD)
 }
 
 func genC12(rt *rapid.T, gates bool, known bool, col *Collector) ocCase {
@@ -83,6 +86,7 @@ func genC12(rt *rapid.T, gates bool, known bool, col *Collector) ocCase {
 		sp.PreClose = rapid.IntRange(0, 2).Draw(rt, l+".preClose") == 0
 		c.Sess = append(c.Sess, sp)
 	}
+	c.PMD = rapid.SampledFrom([]int{0, 0, 1, 1025}).Draw(rt, "perMessageDeflate")
 	c.Close = rapid.SampledFrom([]string{"close", "close", "close", "closeDiscard", "server", "httpServer"}).Draw(rt, "close")
 	if c.Close != "server" && c.Close != "httpServer" {
 		for i := range c.Sess {
@@ -158,6 +162,10 @@ func runC12(c ocCase) (fail string, stats map[string]bool) {
 	o.SetTransports(types.NewSet("polling", "websocket", "webtransport"))
 	o.SetPingInterval(ocPingInterval)
 	o.SetPingTimeout(ocPingTimeout)
+	if c.PMD > 0 {
+		o.SetPerMessageDeflate(&types.PerMessageDeflate{Threshold: c.PMD - 1})
+		stats["perMessageDeflate-configured"] = true
+	}
 	var w *World
 	var hs *types.HttpServer
 	if c.Close == "httpServer" {
@@ -682,7 +690,7 @@ func TestC12OrderlyClose(t *testing.T) {
 		})
 	}
 	req := []string{"upgrade-completed-while-closing", "session-still-closing-at-shutdown", "graceful-close", "discarding-close", "server-close", "http-server-close", "shutdown>=2-sessions", "client-never-polls-again", "close-during-upgrade", "upgraded-session", "carrier.polling", "carrier.websocket", "carrier.webtransport", "close-while-writer-parked", "last-word-and-close-from-a-flush-listener", "last-word-and-close-from-a-drain-listener", "last-word-and-close-from-a-srv.flush-listener"}
-	req = append(req, "buffer-handed-over-while-the-closer-is-inside-Close")
+	req = append(req, "buffer-handed-over-while-the-closer-is-inside-Close", "perMessageDeflate-configured")
 	col.RequireClasses(t, req...)
 }
 
